@@ -69,7 +69,7 @@ fn conc_share(prop: &str) -> u64 {
     match prop {
         "C14" => 100,
         "C09" | "C10" | "C11" => 25,
-        "C04" | "C15" => 15,
+        "C04" | "C15" | "C18" => 15,
         _ => 0,
     }
 }
